@@ -156,6 +156,13 @@ func isMsiSignatureName(name string) bool {
 	return comdoc.SameName(name, msiDigitalSignature) || comdoc.SameName(name, msiDigitalSignatureEx)
 }
 
+// Only streams directly in the root storage are signature streams; a storage
+// of that name, or a stream of that name further down, is content. This is
+// also what the tar form of the file left out of the digest.
+func isMsiSignatureStream(parent, item *comdoc.DirEnt) bool {
+	return parent.Type == comdoc.DirRoot && item.Type == comdoc.DirStream && isMsiSignatureName(item.Name())
+}
+
 // Recursively hash a MSI directory (storage)
 func hashMsiDir(cdf *comdoc.ComDoc, parent *comdoc.DirEnt, d io.Writer) error {
 	files, err := cdf.ListDir(parent)
@@ -164,8 +171,7 @@ func hashMsiDir(cdf *comdoc.ComDoc, parent *comdoc.DirEnt, d io.Writer) error {
 	}
 	sortMsiFiles(files)
 	for _, item := range files {
-		name := item.Name()
-		if isMsiSignatureName(name) {
+		if isMsiSignatureStream(parent, item) {
 			continue
 		}
 		switch item.Type {
@@ -198,8 +204,7 @@ func prehashMsiDir(cdf *comdoc.ComDoc, parent *comdoc.DirEnt, d io.Writer) error
 		return err
 	}
 	for _, item := range files {
-		name := item.Name()
-		if isMsiSignatureName(name) {
+		if isMsiSignatureStream(parent, item) {
 			continue
 		}
 		switch item.Type {
